@@ -33,13 +33,18 @@ def wire_bytes(typ: str, v: Any) -> bytes:
     return struct.pack(f'<{len(v)}f', *v)
 
 
-def _nl(b: bytes) -> str:
+def _nl(b) -> str:
     return '[' + ';'.join(str(x) for x in b) + ']'
+
+
+def _enc(x: str, encoding: str):
+    """The string as the numbers of a Coq literal: its bytes in the given codec, or its code points for 'cps'."""
+    return [ord(c) for c in x] if encoding == 'cps' else x.encode(encoding)
 
 
 def coq_attr(rec: list, encoding: str) -> str:
     def s(x: str) -> str:
-        return _nl(x.encode(encoding))
+        return _nl(_enc(x, encoding))
     name, typ, is_arr, vals = rec
     if typ == 'ELEMENT':
         items = ['RNull' if v is None else (f'(RElem {v})' if isinstance(v, int)
@@ -58,7 +63,7 @@ def coq_attr(rec: list, encoding: str) -> str:
 def coq_doc(c: dict, encoding: str) -> str:
     """A canonical spec as a Coq [doc] literal; strings are pre-encoded (the model runs with the identity codec)."""
     def s(x: str) -> str:
-        return _nl(x.encode(encoding))
+        return _nl(_enc(x, encoding))
     els = []
     for e in c['elems']:
         attrs = [coq_attr(a, encoding) for a in e['attrs']]
@@ -70,7 +75,7 @@ def coq_doc(c: dict, encoding: str) -> str:
 def coq_rdoc(c: dict, encoding: str) -> str:
     """The real dicts of a canonical graph (U.canon: 'members', the name member included) as a Coq [rdoc] literal."""
     def s(x: str) -> str:
-        return _nl(x.encode(encoding))
+        return _nl(_enc(x, encoding))
     els = []
     for e in c['elems']:
         ms = [f'({s(k)}, {coq_attr(rec, encoding)})' for k, rec in e['members']]
@@ -79,13 +84,13 @@ def coq_rdoc(c: dict, encoding: str) -> str:
 
 
 MANIFEST = dict(
-    technique='Rocq proof (binary DMX body round trip for versions 0-5; type-code round trip; fixed-width value codecs through the shared struct model incl. the TIME codec over exact rationals with a proved binary64 rounding model; typed binary documents; KeyValues2 on the shared tokenizer model: reference decision tables, flat layout text -> tokens -> document -> graph (fix-up pass), nested layout with the full parser recursion by mutual nested induction; value strings through C05\'s exact %.6f model; KV1 bridge; round 3: the ordered dict of members of an element of members below the binary document - attribute count = records written for every history of the mapping API, export of the real dicts = export of the document they denote; the dict the readers build is keyed by the casefolded names and is the canonical form of the exported dict; KeyValues2 at the level of the dict: what the reader builds from the records the writer wrote denotes the same element) + ast translator (normalising: helper inlining, single-use locals, else-after-return, Struct constants, loop vs comprehension, locals by role) with 67 kernel-checked instance obligations + seven vm_compute correspondences (byte-exact binary, scalar codecs, KV2 flat / nested text exact, keyword predicate, value strings, KV1 bridge) + isomorphism oracle on real graphs',
-    text='Theorems in Props/C14.v (72; all closed under the global context): the attribute type byte decodes to the same (type, array?) pair; parse_bin (export_bin d) = d for every expressible document (versions 0-5); every fixed-width value representable in its wire type (int32, binary32 patterns, booleans, tick-exact times, colour bytes, vectors, angles in [0,360), quaternions, the 3x3 part of a matrix) is packed by the generated struct format into calcsize bytes and unpacked to the same value (Bin/Struct unpack_pack instantiated); round((k/S)*S) = k in binary64 for every 32-bit tick count, with |rn64 x - x| <= 2^-53 |x| proved for the executable rounding model, and int() instead of round() refuted by a computed witness; typed documents survive lower -> export_bin -> parse_bin -> lift; a KV2 reference decision table meeting its condition writes NULL / stub / root / inline exactly as the format needs and the two sites agree (dropping `or is_stub` refuted); the flat-layout text of any document re-tokenises (C02 quoted_embedding composed) and re-parses to the document, and linking UUID references gives back the graph (sharing, cycles, NULL, stubs) for pairwise distinct ids; the nested-layout text re-parses to the tree of inline blocks at any depth provided no inline element has an attribute type keyword as its type (refuted otherwise: the defect repaired in this round); FLOAT / vector component text denotes the value rounded half-even at 6 places, vector texts split into their components, int and colour texts parse back; to_kv1 (from_kv1 t) = t. All configurations (type codes, sizes, struct formats, TIME rounding function and scales, MATRIX slot layout, codec per string site, stub payload, KV2 escaping / codec per field, the two reference if-chains, the keyword-root rule, Tokenizer kwargs, ValueType keywords, _fmt_float and the vector / colour string converters, KV1 constants) are regenerated from dmx.py (tokenizer tables from tokenizer.py) on every run and the premises are kernel-checked as named obligations. The models are compared with the implementation on generated inputs on every run; generated graphs (DAGs, cycles, stubs, NULLs, all types, empty arrays, 3 unicode modes, versions 1-5, KV2 flat/nested/cull_uuid) are round-tripped through Element.parse and compared up to isomorphism. Round 3 (47-72): for every count expression / loop filters / Element.name meeting cnt_cfg_ok and every dict with pairwise distinct keys the attribute count export_binary writes equals the number of records it writes, with or without the name member; every operation of the mapping API (clear, del, pop, popitem, name setter, item assignment, setdefault) keeps the keys distinct and the dict keyed by the casefolded names, hence every history on a fresh element; export_raw on the real dicts = export_bin of the document they denote and parses back to it (versions 0-5); len(elem) - 1 and a record loop testing attr.name are refuted by computed witnesses; from_kv1 with both name tests on the casefolded name is the proved bridge, either test on the case-preserved name is refuted; the dict a reader builds from a document element is the name member followed by one member per record under its casefolded name, elem[a.name] finds every attribute, it denotes the document element, and composed with the export theorems it is the canonical form of the exported dict; a reader storing under the name as written is refuted. KeyValues2 at the level of the dict: for every dict keyed by the casefolded names whose name member is a string, either name test of the reader and every skip test of the writer that skips only the member keyed name, the dict read from the records written is the name member holding Element.name followed by every other member under its key in order, so it denotes the same element - for every API history; a name member spelled NAME keeps its spelling through KeyValues2 (computed example); a loop skipping another key is refuted.',
-    note='Trusted: Coq kernel + vm_compute, translate/c14_dmx.py and translate/c02_tables.py, the hand models Fmt/DmxBin.v, Fmt/DmxKv1.v, Fmt/DmxScalar.v, Fmt/DmxKv2.v, Fmt/DmxKv2Nested.v, Fmt/DmxValText.v (each tied by a differential run on every run) and the shared Bin/Struct.v, Text/Tokenizer.v, Num/Dec6.v; CPython codecs / uuid (str.encode/decode and UUID text are parameters or opaque texts); binary64 arithmetic is rn64 of the exact result (no exponent range; compared with CPython float * and / on every run); a binary32 value is its bit pattern (harness converts with struct "<f"); FrozenAngle normalisation identity on [0,360) is a hypothesis checked on sampled patterns; breadth-first numbering of the object graph is done by the harness and checked by the byte-exact comparison. Not modelled (oracle only): which elements export_kv2 makes roots in the nested layout (recomputed by the harness for the text comparison; the keyword rule is an obligation + predicate correspondence) and the graph <-> block-tree step of the nested layout, float(text) / str(float) / hex / bool strings, malformed KV2 input, the DMX header line and unicode flag, format name/version. Round 3: the members-level models Fmt/DmxMembers.v / Fmt/DmxMembersParse.v are tied by correspondence:binary (export_raw on the real dicts byte-exact; the dicts of the parsed elements, for ASCII names) and by the translated count expression, loop filters, Element.name, Element.__init__ and the key expression of the three member stores; Fmt/DmxMembersKv2.v is tied by the translated skip test of _export_kv2, the name test of _parse_kv2_element and correspondence:binary code 6 (keys and spellings after a flat KeyValues2 round trip, ASCII names); the dict-level KeyValues2 theorems are not composed with the text-level ones (records -> text -> records is theorems 28 / 32 on documents of name + records); the member keyed "name" is the name of the element whatever its spelling or type (an attribute assigned as \'NAME\' is that member). No known finding left: the round-1 finding (inline element whose type is an attribute type keyword) is repaired in the repo branch.',
+    technique='Rocq proof (binary DMX body round trip for versions 0-5; type-code round trip; fixed-width value codecs through the shared struct model incl. the TIME codec over exact rationals with a proved binary64 rounding model; typed binary documents; KeyValues2 on the shared tokenizer model: reference decision tables, flat layout text -> tokens -> document -> graph (fix-up pass), nested layout with the full parser recursion by mutual nested induction; value strings through C05\'s exact %.6f model; KV1 bridge; round 3: the ordered dict of members of an element of members below the binary document - attribute count = records written for every history of the mapping API, export of the real dicts = export of the document they denote; the dict the readers build is keyed by the casefolded names and is the canonical form of the exported dict; KeyValues2 at the level of the dict: what the reader builds from the records the writer wrote denotes the same element) + ast translator (normalising: helper inlining, single-use locals, else-after-return, Struct constants, loop vs comprehension, locals by role) with 72 kernel-checked instance obligations + seven vm_compute correspondences (byte-exact binary, scalar codecs, KV2 flat / nested text exact, keyword predicate, value strings, KV1 bridge) + isomorphism oracle on real graphs; round 4: the root selection of export_kv2 (use counts, threshold, keyword rule, exported element, flat) read from the source as a generated rootcfg and the graph -> tree-of-blocks step modelled and proved (every reachable element written exactly once, the writer\'s recursion total, the tree carried by the text, cull_uuid = erasure of inline ids), one statement of the whole property per encoding (c14_property_binary, c14_property_kv2), translator locals matched by the role of their binding site, a time limit around every call into the implementation',
+    text='Theorems in Props/C14.v (90; all closed under the global context; 73-90 from round 4 are described at the end): the attribute type byte decodes to the same (type, array?) pair; parse_bin (export_bin d) = d for every expressible document (versions 0-5); every fixed-width value representable in its wire type (int32, binary32 patterns, booleans, tick-exact times, colour bytes, vectors, angles in [0,360), quaternions, the 3x3 part of a matrix) is packed by the generated struct format into calcsize bytes and unpacked to the same value (Bin/Struct unpack_pack instantiated); round((k/S)*S) = k in binary64 for every 32-bit tick count, with |rn64 x - x| <= 2^-53 |x| proved for the executable rounding model, and int() instead of round() refuted by a computed witness; typed documents survive lower -> export_bin -> parse_bin -> lift; a KV2 reference decision table meeting its condition writes NULL / stub / root / inline exactly as the format needs and the two sites agree (dropping `or is_stub` refuted); the flat-layout text of any document re-tokenises (C02 quoted_embedding composed) and re-parses to the document, and linking UUID references gives back the graph (sharing, cycles, NULL, stubs) for pairwise distinct ids; the nested-layout text re-parses to the tree of inline blocks at any depth provided no inline element has an attribute type keyword as its type (refuted otherwise: the defect repaired in this round); FLOAT / vector component text denotes the value rounded half-even at 6 places, vector texts split into their components, int and colour texts parse back; to_kv1 (from_kv1 t) = t. All configurations (type codes, sizes, struct formats, TIME rounding function and scales, MATRIX slot layout, codec per string site, stub payload, KV2 escaping / codec per field, the two reference if-chains, the keyword-root rule, Tokenizer kwargs, ValueType keywords, _fmt_float and the vector / colour string converters, KV1 constants) are regenerated from dmx.py (tokenizer tables from tokenizer.py) on every run and the premises are kernel-checked as named obligations. The models are compared with the implementation on generated inputs on every run; generated graphs (DAGs, cycles, stubs, NULLs, all types, empty arrays, 3 unicode modes, versions 1-5, KV2 flat/nested/cull_uuid) are round-tripped through Element.parse and compared up to isomorphism. Round 3 (47-72): for every count expression / loop filters / Element.name meeting cnt_cfg_ok and every dict with pairwise distinct keys the attribute count export_binary writes equals the number of records it writes, with or without the name member; every operation of the mapping API (clear, del, pop, popitem, name setter, item assignment, setdefault) keeps the keys distinct and the dict keyed by the casefolded names, hence every history on a fresh element; export_raw on the real dicts = export_bin of the document they denote and parses back to it (versions 0-5); len(elem) - 1 and a record loop testing attr.name are refuted by computed witnesses; from_kv1 with both name tests on the casefolded name is the proved bridge, either test on the case-preserved name is refuted; the dict a reader builds from a document element is the name member followed by one member per record under its casefolded name, elem[a.name] finds every attribute, it denotes the document element, and composed with the export theorems it is the canonical form of the exported dict; a reader storing under the name as written is refuted. KeyValues2 at the level of the dict: for every dict keyed by the casefolded names whose name member is a string, either name test of the reader and every skip test of the writer that skips only the member keyed name, the dict read from the records written is the name member holding Element.name followed by every other member under its key in order, so it denotes the same element - for every API history; a name member spelled NAME keeps its spelling through KeyValues2 (computed example); a loop skipping another key is refuted. Round 4 (73-90): a root rule meeting root_rule_ok decides exactly flat / used twice or more / keyword type / exported element, so an element written inline is referred to at most once; for any root predicate every block of the tree nest_doc gives is, read back (unnest), an element of the graph with its references by id, and every element reachable from the exported one is written; with the root rule no element is written twice (blocks counted level by level below the roots; the holder of an inline element is unique), the recursion ends with fuel length g + 1, the tree meets ndoc_ok (inline blocks have no keyword type because such elements are roots), cull_uuid erases the ids of inline blocks only and no reference names an inline block; flatten (link d) = d for every document (the graph the fix-up pass builds is determined by the registered elements up to numbering); hence c14_property_kv2: for every graph with distinct ids whose elements are all reachable, the flat text parses and links back to the graph, and the nested tree exists, is parsed back from its text, holds every element once with the exported one first and is a permutation of the flat document whose references resolve to the graph; count > 2 and a missing name line for empty names are refuted by computed witnesses. c14_property_binary: the bytes written from the real dicts (any API history) whose values are the packed form of representable typed values parse to a document that unpacks to those values and gives the canonical reader dicts.',
+    note='Trusted: Coq kernel + vm_compute, translate/c14_dmx.py and translate/c02_tables.py, the hand models Fmt/DmxBin.v, Fmt/DmxKv1.v, Fmt/DmxScalar.v, Fmt/DmxKv2.v, Fmt/DmxKv2Nested.v, Fmt/DmxValText.v (each tied by a differential run on every run) and the shared Bin/Struct.v, Text/Tokenizer.v, Num/Dec6.v; CPython codecs / uuid (str.encode/decode and UUID text are parameters or opaque texts); binary64 arithmetic is rn64 of the exact result (no exponent range; compared with CPython float * and / on every run); a binary32 value is its bit pattern (harness converts with struct "<f"); FrozenAngle normalisation identity on [0,360) is a hypothesis checked on sampled patterns; breadth-first numbering of the object graph is done by the harness and checked by the byte-exact comparison. Not modelled (oracle only): float(text) / str(float) / hex / bool strings, malformed KV2 input, the DMX header line and unicode flag, format name/version. Round 3: the members-level models Fmt/DmxMembers.v / Fmt/DmxMembersParse.v are tied by correspondence:binary (export_raw on the real dicts byte-exact; the dicts of the parsed elements, for ASCII names) and by the translated count expression, loop filters, Element.name, Element.__init__ and the key expression of the three member stores; Fmt/DmxMembersKv2.v is tied by the translated skip test of _export_kv2, the name test of _parse_kv2_element and correspondence:binary code 6 (keys and spellings after a flat KeyValues2 round trip, ASCII names); the dict-level KeyValues2 theorems are not composed with the text-level ones (records -> text -> records is theorems 28 / 32 on documents of name + records); the member keyed "name" is the name of the element whatever its spelling or type (an attribute assigned as \'NAME\' is that member). Round 4: Fmt/DmxKv2Graph.v (nest_doc / unnest / is_root) is tied by the translated root rule (use_count initial value, first-use value, increment, stub skip, comparison and threshold, keyword update, roots.add(self.uuid), flat branch, the writing loop and the arguments handed to _export_kv2), the id-line condition and the unconditional name line of _export_kv2, and by correspondence:kv2-nested-text codes 6-8 (nest_doc of the real object graph renders to the exported text, with and without cull_uuid; every element written once; unnest of the parsed tree = the object graph Element.parse returned); the reader-dict correspondences now run on code points with the regenerated casefold table (names outside ASCII included); the graph-level KeyValues2 theorems are on documents of name + records (the dict-level theorems 68-72 stay a separate layer); the step from the elements the reader registers to object identity (an inline block is the attribute value itself, a reference is resolved through id_to_elem) is modelled as resolution by id, which is the same thing because no id is registered twice (written_once). Print Assumptions is asked once for the conjunction of all theorems of Props/C14.v (per-theorem fallback if it is not closed). No known finding left: the round-1 finding (inline element whose type is an attribute type keyword) is repaired in the repo branch.',
 )
 
 IMPORTS = ['Coq.NArith.NArith', 'Coq.ZArith.ZArith', 'Coq.Lists.List', 'Coq.Bool.Bool', 'SV.Fmt.DmxCodes', 'SV.Fmt.DmxBin',
-           'SV.Fmt.DmxMembers', 'SV.Fmt.DmxMembersParse', 'SV.Fmt.DmxMembersKv2', 'SV.Fmt.DmxKv1', 'SV.Fmt.DmxKv1Sel', 'SV.Fmt.DmxScalar', 'SV.Text.Str', 'SV.Text.Tokenizer', 'SV.Text.TokGen', 'SV.Fmt.DmxKv2',
+           'SV.Fmt.DmxMembers', 'SV.Fmt.DmxMembersParse', 'SV.Fmt.DmxMembersKv2', 'SV.Fmt.DmxKv1', 'SV.Fmt.DmxKv1Sel', 'SV.Fmt.DmxScalar', 'SV.Text.Str', 'SV.Text.Tokenizer', 'SV.Text.TokGen', 'SV.Fmt.DmxKv2', 'SV.Fmt.DmxKv2Graph',
            'SV.Num.Dec6', 'SV.Fmt.DmxValText', 'SV.Fmt.DmxHeader', 'SV.Gen.DmxCodes_gen', 'SV.Fmt.DmxKv2Inst']
 PRE_BIN = '''Import ListNotations. Open Scope N_scope.
 Definition idenc (_ : enc) (s : str) : bytes := s.
@@ -105,30 +110,32 @@ Definition odoc_eqb (a b : option doc) := match a, b with Some x, Some y => leqb
    3 the export of the real dicts (count expression and loop filters read from the source) differs from the bytes,
    4 the document the real dicts denote differs from the document the harness computed from the spec and its history,
    5 the dicts the reader model builds from the parsed document (key expression read from the source) differ from the
-     dicts of the elements Element.parse returned (given when every attribute name is ASCII: casefold = A-Z -> a-z) *)
-Definition ascii_lower (s : str) : str := map (fun c => if (65 <=? c) && (c <=? 90) then c + 32 else c) s.
+     dicts of the elements Element.parse returned *)
 Definition members_eqb (a b : members) := leqb (fun x y : str * attr => nl_eqb (fst x) (fst y) && attr_eqb (snd x) (snd y)) a b.
+(* codes 5 and 6 work on code points (the literals pcp / prcp / rdcp / kv hold code points, not bytes) with str.casefold as the
+   per-character table regenerated from the running CPython (gen_fold): names outside ASCII included *)
 Definition reader_dicts_ok (p : option doc) (pr : option rdoc) : bool :=
   match p, pr with
-  | Some pd, Some prd => leqb members_eqb (map (parsed_members ascii_lower (pk_bin gen_parse)) pd) (map r_members prd)
+  | Some pd, Some prd => leqb members_eqb (map (parsed_members gen_fold (pk_bin gen_parse)) pd) (map r_members prd)
   | _, _ => true
   end.
 (* 6: the same graph through KeyValues2 (flat layout): keys and spellings of the dict the model of the KV2 writer + reader
    gives for every exported dict (skip test, name test and key expression read from the source) differ from the dicts
-   of the elements Element.parse returned (given when every name is ASCII) *)
+   of the elements Element.parse returned *)
 Definition shape_of (m : members) : list (str * str) := map (fun ka : str * attr => (fst ka, aname (snd ka))) m.
 Definition kv2_dicts_ok (rd : rdoc) (kv : option (list (list (str * str)))) : bool :=
   match kv with
   | Some l => leqb (leqb (fun x y : str * str => nl_eqb (fst x) (fst y) && nl_eqb (snd x) (snd y)))
-                (map (fun r => shape_of (kv2_read ascii_lower gen_kv2_name_test (pk_kv2_attr gen_parse) [] (kv2_written gen_cnt gen_kv2_skip (r_members r)))) rd) l
+                (map (fun r => shape_of (kv2_read gen_fold gen_kv2_name_test (pk_kv2_attr gen_parse) [] (kv2_written gen_cnt gen_kv2_skip (r_members r)))) rd) l
   | None => true
   end.
-Definition chk (c : N * doc * bytes * option doc * rdoc * option rdoc * option (list (list (str * str)))) : N := let '(v, d, b, p, rd, pr, kv) := c in
+Definition chk (c : N * doc * bytes * option doc * rdoc * option doc * option rdoc * rdoc * option (list (list (str * str)))) : N :=
+  let '(v, d, b, p, rd, pcp, prcp, rdcp, kv) := c in
   if nl_eqb (export_bin idenc gen_cfg v d) b
   then (if odoc_eqb (parse_bin iddec gen_cfg v b) p
         then (if nl_eqb (export_raw idenc gen_cfg gen_cnt v rd) b
               then (if odoc_eqb (Some (map (abstract gen_cnt) rd)) (Some d)
-                    then (if reader_dicts_ok p pr then (if kv2_dicts_ok rd kv then 0 else 6) else 5) else 4) else 3)
+                    then (if reader_dicts_ok pcp prcp then (if kv2_dicts_ok rdcp kv then 0 else 6) else 5) else 4) else 3)
         else 2)
   else 1.
 Fixpoint bad_idx {A} (f : A -> N) (n : N) (l : list A) : list N := match l with [] => [] | x :: r => (if f x =? 0 then [] else [n * 10 + f x]) ++ bad_idx f (n + 1) r end.
@@ -142,6 +149,14 @@ def rand_mode(rng, fmt=None) -> dict:
     if fmt == 'binary':
         return {'fmt': 'binary', 'version': rng.randint(1, 5), 'unicode': uni}
     return {'fmt': 'kv2', 'flat': rng.random() < 0.5, 'cull_uuid': rng.random() < 0.3, 'unicode': uni}
+
+
+FMT_NAMES = ['model', 'pcf', 'sfm_session', 'x', 'vmt-1', 'a.b', 'MixedCase', 'dmx']
+
+
+def with_format_args(rng, mode: dict) -> dict:
+    """The fmt_name / fmt_ver arguments of the exporters, other than their defaults (the header line carries them)."""
+    return dict(mode, fmt_name=rng.choice(FMT_NAMES), fmt_ver=rng.choice([0, 1, 2, 18, 22, 100]))
 
 
 def mode_tag(m: dict) -> str:
@@ -159,11 +174,11 @@ def mode_class(spec: dict, mode: dict) -> str:
     uni_needed = not all(s.isascii() for s in _all_strings(spec))
     unis = ['format', 'silent'] if uni_needed else ['ascii']
     if mode['fmt'] == 'binary':
-        bad = [v for v in range(1, 6) if (v >= 3 or not _has_time(spec)) and any(fails(spec, {'fmt': 'binary', 'version': v, 'unicode': u}) for u in unis)]
+        bad = [v for v in range(1, 6) if (v >= 3 or not _has_time(spec)) and any(fails(spec, dict(mode, version=v, unicode=u)) for u in unis)]
         if bad == [v for v in range(1, 6) if v >= 3 or not _has_time(spec)]:
             return 'binary'
         return 'binary-v' + ''.join(map(str, bad))
-    res = {fl: any(fails(spec, {'fmt': 'kv2', 'flat': fl, 'cull_uuid': mode['cull_uuid'], 'unicode': u}) for u in unis) for fl in (False, True)}
+    res = {fl: any(fails(spec, dict(mode, flat=fl, unicode=u)) for u in unis) for fl in (False, True)}
     if res[False] and res[True]:
         return 'kv2'
     return 'kv2-flat' if res[True] else 'kv2-nested'
@@ -254,10 +269,11 @@ CORPUS: list[tuple[str, dict, list[dict]]] = [
 def corr_binary(ck: Ck) -> None:
     """Model export vs export_binary (byte-exact) and model parse of the implementation's bytes vs parse_bin."""
     from srctools import dmx
-    n = ck.budget(100, 3000)
+    n = ck.budget(100, 1500)
     cases = []
     corpus = [(s, m) for _, s, ms in CORPUS for m in ms if m['fmt'] == 'binary']
     for i in range(n):
+        U.arm()        # a limit per case: an implementation that does not return ends the stage, not the check
         if i < len(corpus):
             spec, mode = corpus[i]
         else:
@@ -278,36 +294,40 @@ def corr_binary(ck: Ck) -> None:
             ck.hist('corr_binary_name_member', 'missing' if not e['has_name'] else ('first' if not e['name_pos'] else 'later'))
         cut = data.find(b'-->\n\0')
         body = data[cut + 5:]
-        prl = 'None'
+        prl = pcl = 'None'
         try:
             got, _, _ = dmx.Element.parse(io.BytesIO(data), unicode=(mode['unicode'] == 'silent'))
             cg = U.canon(got)
             parsed = coq_doc(cg, 'utf8')
             pl = f'(Some {parsed})'
-            if all(e['members'] is not None and all(rec[0].isascii() for _, rec in e['members']) for e in cg['elems']):
-                prl = f'(Some {coq_rdoc(cg, "utf8")})'       # the dicts of the parsed elements, keys included
+            if all(e['members'] is not None for e in cg['elems']):
+                pcl = f'(Some {coq_doc(cg, "cps")})'
+                prl = f'(Some {coq_rdoc(cg, "cps")})'       # the dicts of the parsed elements, keys included, as code points
                 ck.count('corr_binary_reader_dicts')
+                ck.hist('corr_binary_reader_dict_names', 'ascii' if all(rec[0].isascii() for e in cg['elems'] for _, rec in e['members']) else 'non-ascii')
         except Exception:
             pl = 'None'
             ck.count('corr_binary_impl_parse_error')
         kvl = 'None'
-        if all(rec[0].isascii() for e in real['elems'] for _, rec in e['members']):
-            try:      # the same graph through KeyValues2, flat layout (every element a top-level block): keys and spellings of the parsed dicts
-                buf2 = io.BytesIO()
-                U.build(spec)[0].export_kv2(buf2, flat=True, unicode=mode['unicode'])
-                g2, _, _ = dmx.Element.parse(io.BytesIO(buf2.getvalue()), unicode=(mode['unicode'] == 'silent'))
-                c2 = U.canon(g2)
-                if len(c2['elems']) == len(real['elems']) and all(e['members'] is not None for e in c2['elems']):
-                    kvl = '(Some ' + coq_list(coq_list(f'({_nl(k.encode("utf8"))}, {_nl(rec[0].encode("utf8"))})' for k, rec in e['members'])
-                                              for e in c2['elems']) + ')'
-                    ck.count('corr_binary_kv2_dicts')
-            except Exception:
-                ck.count('corr_binary_kv2_error')
-        cases.append((mode, spec, f'({mode["version"]}, {coq_doc(c, "utf8")}, {_nl(body)}, {pl}, {coq_rdoc(real, "utf8")}, {prl}, {kvl})'))
+        try:      # the same graph through KeyValues2, flat layout (every element a top-level block): keys and spellings of the parsed dicts
+            buf2 = io.BytesIO()
+            uni2 = mode['unicode'] if all(x.isascii() for x in _all_strings(spec)) or mode['unicode'] != 'ascii' else 'format'
+            U.build(spec)[0].export_kv2(buf2, flat=True, unicode=uni2)
+            g2, _, _ = dmx.Element.parse(io.BytesIO(buf2.getvalue()), unicode=(uni2 == 'silent'))
+            c2 = U.canon(g2)
+            if len(c2['elems']) == len(real['elems']) and all(e['members'] is not None for e in c2['elems']):
+                kvl = '(Some ' + coq_list(coq_list(f'({_cps(k)}, {_cps(rec[0])})' for k, rec in e['members'])
+                                          for e in c2['elems']) + ')'
+                ck.count('corr_binary_kv2_dicts')
+        except Exception:
+            ck.count('corr_binary_kv2_error')
+        cases.append((mode, spec, f'({mode["version"]}, {coq_doc(c, "utf8")}, {_nl(body)}, {pl}, {coq_rdoc(real, "utf8")}, {pcl}, {prl}, '
+                                  f'{coq_rdoc(real, "cps")}, {kvl})'))
         ck.count('corr_binary_cases')
         ck.hist('corr_binary_version', mode['version'])
         if len(c['elems']) > 1 or any(e['attrs'] for e in c['elems']):
             ck.seen(('cb', mode['version'], mode['unicode'], repr(c['elems'])))
+    U.disarm()
     bad = []
     for lo in range(0, len(cases), 120):
         part = cases[lo:lo + 120]
@@ -446,6 +466,7 @@ def corr_scalar(ck: Ck) -> None:
     n = ck.budget(330, 4400)
     cases = []
     for i in range(n):
+        U.arm()        # a limit per case: an implementation that does not return ends the stage, not the check
         typ = SCALAR_TYPES[i % len(SCALAR_TYPES)]
         vt = dmx.ValueType[typ]
         v = gen_scalar_value(ck.rng, typ)
@@ -467,6 +488,7 @@ def corr_scalar(ck: Ck) -> None:
         ck.count('corr_scalar_cases')
         ck.hist('corr_scalar_type', typ)
         ck.seen(('sc', typ, repr(v)))
+    U.disarm()
     bad = []
     for lo in range(0, len(cases), 440):
         vals = ck.coq_eval(IMPORTS_SC, [f'bad_idx chks 0 {coq_list(x[2] for x in cases[lo:lo + 440])}'], name='scalar', preamble=PRE_SC)
@@ -522,12 +544,19 @@ Definition ogdoc_eqb (a b : option gdoc) := match a, b with Some x, Some y => le
 (* per case: 0 ok, 1 model text differs from export_kv2(flat=True), 2 model parse of that text differs from parse_kv2,
    3 the document is outside doc_ok (generator bug), 4 the linked graph (fix-up pass) differs from the parsed object graph,
    5 model parse of the re-formatted text (other line ends / indentation, comments, trailing commas) differs from parse_kv2 *)
-Definition chk2 (c : kdoc * str * option kdoc * option gdoc * str * option kdoc) : N := let '(d, text, back, gback, text2, back2) := c in
+(* 6: graph level, flat layout: nest_doc of the exported object graph with the root rule read from the source (flat = every
+   element a root) does not render to the exported text, or it is not the flat document of the graph *)
+Definition flat_graph_ok (g : gdoc) (text : str) : bool :=
+  match nest_doc g (is_root gen_fold gen_vtnames gen_rootcfg true g) false with
+  | Some dn => str_eqb (rendern_doc gen_tables dn) text && leqb kelem_eqb (unnest dn) (flatten g)
+  | None => false
+  end.
+Definition chk2 (c : kdoc * str * option kdoc * option gdoc * str * option kdoc * gdoc) : N := let '(d, text, back, gback, text2, back2, g) := c in
   if negb (doc_ok gen_tables gen_vtnames d) then 3
   else if str_eqb (gen_render_doc d) text
        then (if okdoc_eqb (gen_parse_text text) back
              then (if ogdoc_eqb (match gen_parse_text text with Some x => link x | None => None end) gback
-                   then (if okdoc_eqb (gen_parse_text text2) back2 then 0 else 5) else 4)
+                   then (if okdoc_eqb (gen_parse_text text2) back2 then (if flat_graph_ok g text then 0 else 6) else 5) else 4)
              else 2)
        else 1.
 Fixpoint bad_idx {A} (f : A -> N) (n : N) (l : list A) : list N := match l with [] => [] | x :: r => (if f x =? 0 then [] else [n * 10 + f x]) ++ bad_idx f (n + 1) r end.
@@ -677,10 +706,11 @@ def corr_kv2(ck: Ck) -> None:
     the model's text equals the exported text after the header line, and the model's parse of that text equals the
     string-level document of what Element.parse returns."""
     from srctools import dmx
-    n = ck.budget(20, 400)
+    n = ck.budget(20, 300)
     cases = []
     corpus = [s for _, s, ms in CORPUS if any(m['fmt'] == 'kv2' for m in ms)]
     for i in range(n):
+        U.arm()        # a limit per case: an implementation that does not return ends the stage, not the check
         uni = ck.rng.choice(['ascii', 'format', 'silent'])
         spec = corpus[i] if i < len(corpus) else U.gen_spec(ck.rng, uni != 'ascii')
         elems = U.build(spec)
@@ -710,14 +740,15 @@ def corr_kv2(ck: Ck) -> None:
         except Exception:
             back2 = 'None'
             ck.count('corr_kv2_impl_reformat_parse_error')
-        cases.append((spec, uni, f'({coq_kdoc(d)}, {_cps(text)}, {back}, {gback}, {_cps(text2)}, {back2})'))
+        cases.append((spec, uni, f'({coq_kdoc(d)}, {_cps(text)}, {back}, {gback}, {_cps(text2)}, {back2}, {coq_gdoc(gdoc_of(elems[0]))})'))
         ck.count('corr_kv2_cases')
         ck.hist('corr_kv2_text_chars', len(text) // 500 * 500)
         if len(d) > 1 or d[0][3]:
             ck.seen(('k2', uni, repr(d)))
+    U.disarm()
     bad = []
     for lo in range(0, len(cases), 45):
-        vals = ck.coq_eval(IMPORTS_KV2, [f'bad_idx chk2 0 {coq_list(x[2] for x in cases[lo:lo + 45])}'], name='kv2', preamble=PRE_KV2)
+        vals = ck.coq_eval(IMPORTS_KV2 + ['SV.Fmt.DmxKv2Nested', 'SV.Fmt.DmxKv2Graph'], [f'bad_idx chk2 0 {coq_list(x[2] for x in cases[lo:lo + 45])}'], name='kv2', preamble=PRE_KV2)
         if vals is None:
             ck.obligation('correspondence:kv2-flat-text', False, 'model could not be evaluated')
             ck.tie_broken.append('correspondence KV2 flat text: model evaluation failed')
@@ -725,7 +756,8 @@ def corr_kv2(ck: Ck) -> None:
         bad += [(lo + v // 10, v % 10) for v in parse_coq_N_list(vals[0])]
     ck.obligation('correspondence:kv2-flat-text', not bad,
                   f'{len(cases)} documents: Fmt/DmxKv2.v render_doc vs export_kv2(flat=True) text (exact), parse_text of that text vs '
-                  f'the string-level document of Element.parse, link (fix-up pass) vs the parsed object graph: {len(bad)} disagreements')
+                  f'the string-level document of Element.parse, link (fix-up pass) vs the parsed object graph; graph level: nest_doc of the '
+                  f'object graph with the flat branch of the generated root rule renders to the same text: {len(bad)} disagreements')
     if cases:
         ck.sample({'kv2_flat_case': {'unicode': cases[-1][1], 'spec': cases[-1][0]}})
     if bad:
@@ -735,12 +767,13 @@ def corr_kv2(ck: Ck) -> None:
                                         'kind': {1: 'model text differs from export_kv2', 2: 'model parse differs from parse_kv2',
                                                  3: 'generated document outside doc_ok',
                                                  4: 'model link (fix-up pass) differs from the parsed object graph',
-                                                 5: 'model parse of the re-formatted text differs from parse_kv2'}.get(code, code)}
+                                                 5: 'model parse of the re-formatted text differs from parse_kv2',
+                                                 6: 'graph level: nest_doc with every element a root (flat branch of the root rule) does not give the exported text / the flat document'}.get(code, code)}
 
 
 
 # ------------------------------------------------------------------------------------------------ KeyValues2, nested layout
-IMPORTS_KV2N = IMPORTS_KV2 + ['SV.Fmt.DmxKv2Nested']
+IMPORTS_KV2N = IMPORTS_KV2 + ['SV.Fmt.DmxKv2Nested', 'SV.Fmt.DmxKv2Graph']
 PRE_KV2N = """Import ListNotations. Open Scope N_scope.
 Fixpoint leqb {A} (f : A -> A -> bool) (a b : list A) : bool :=
   match a, b with [], [] => true | x :: a', y :: b' => f x y && leqb f a' b' | _, _ => false end.
@@ -757,12 +790,40 @@ with nitem_eqb (a b : nitem) {struct a} : bool :=
   match a, b with NStr x, NStr y => str_eqb x y | NNull, NNull => true | NRef x, NRef y => str_eqb x y
                 | NInline x, NInline y => nelem_eqb x y | _, _ => false end.
 Definition ondoc_eqb (a b : option ndoc) := match a, b with Some x, Some y => leqb nelem_eqb x y | None, None => true | _, _ => false end.
-(* per case: 0 ok, 1 model text differs from export_kv2(flat=False), 2 model parse differs from parse_kv2, 3 outside ndoc_ok *)
-Definition chk3 (c : ndoc * str * option ndoc * str * option ndoc) : N := let '(d, text, back, text2, back2) := c in
+Definition kitem_eqb (a b : kitem) := match a, b with KStr x, KStr y => str_eqb x y | KNull, KNull => true | KRef x, KRef y => str_eqb x y | _, _ => false end.
+Definition kattr_eqb (a b : kattr) := str_eqb (ka_name a) (ka_name b) && str_eqb (ka_type a) (ka_type b) && Bool.eqb (ka_arr a) (ka_arr b) && leqb kitem_eqb (ka_items a) (ka_items b).
+Definition kelem_eqb (a b : kelem) := str_eqb (ke_type a) (ke_type b) && ostr_eqb (ke_id a) (ke_id b) && str_eqb (ke_name a) (ke_name b) && leqb kattr_eqb (ke_attrs a) (ke_attrs b).
+Definition in_k (k : kelem) (l : kdoc) : bool := existsb (kelem_eqb k) l.
+(* the same elements, the same number of them, the same first one *)
+Definition perm_k (a b : kdoc) : bool :=
+  Nat.eqb (length a) (length b) && forallb (fun k => in_k k b) a && forallb (fun k => in_k k a) b &&
+  match a, b with x :: _, y :: _ => kelem_eqb x y | _, _ => false end.
+Definition gen_isroot (g : gdoc) : nat -> bool := is_root gen_fold gen_vtnames gen_rootcfg false g.
+(* per case: 0 ok, 1 model text differs from export_kv2(flat=False), 2 model parse differs from parse_kv2, 3 outside ndoc_ok,
+   5 model parse of the re-formatted text differs,
+   6 graph level: nest_doc of the exported object graph with the root rule read from the source fails or does not render to the exported text,
+   7 an element is written more than once (written_once of the tree of blocks),
+   8 the elements the reader model registers (unnest of the parsed tree) are not those of the object graph Element.parse returned
+     (same elements with references by id, same number, the returned element first; cases with every id written) *)
+Definition chk3 (c : ndoc * str * option ndoc * str * option ndoc * gdoc * bool * option gdoc) : N := let '(d, text, back, text2, back2, g, cull, gback) := c in
   if negb (ndoc_ok gen_tables gen_fold gen_vtnames d) then 3
   else if str_eqb (rendern_doc gen_tables d) text
-       then (if ondoc_eqb (parsen_text gen_tables gen_kv2_opts gen_fold gen_vtnames text) back
-             then (if ondoc_eqb (parsen_text gen_tables gen_kv2_opts gen_fold gen_vtnames text2) back2 then 0 else 5) else 2)
+       then (let p := parsen_text gen_tables gen_kv2_opts gen_fold gen_vtnames text in
+             if ondoc_eqb p back
+             then (if ondoc_eqb (parsen_text gen_tables gen_kv2_opts gen_fold gen_vtnames text2) back2
+                   then (match nest_doc g (gen_isroot g) cull with
+                         | Some dn =>
+                             if negb (str_eqb (rendern_doc gen_tables dn) text) then 6
+                             else if negb (match nest_doc g (gen_isroot g) false with Some d0 => written_once d0 | None => false end) then 7
+                             else match cull, gback, p with
+                                  | false, Some gb, Some dp => if perm_k (unnest dp) (flatten gb) then 0 else 8
+                                  | false, Some _, None => 8
+                                  | _, _, _ => 0
+                                  end
+                         | None => 6
+                         end)
+                   else 5)
+             else 2)
        else 1.
 Fixpoint bad_idx {A} (f : A -> N) (n : N) (l : list A) : list N := match l with [] => [] | x :: r => (if f x =? 0 then [] else [n * 10 + f x]) ++ bad_idx f (n + 1) r end.
 """
@@ -838,10 +899,11 @@ def corr_kv2_nested(ck: Ck) -> None:
     """Fmt/DmxKv2Nested.v writer and parser vs export_kv2(flat=False, cull_uuid) and parse_kv2: exact text, and the
     parsed tree of blocks (inline elements where they were written)."""
     from srctools import dmx
-    n = ck.budget(20, 400)
+    n = ck.budget(24, 300)
     cases = []
     corpus = [s for _, s, ms in CORPUS if any(m['fmt'] == 'kv2' for m in ms)]
     for i in range(n):
+        U.arm()        # a limit per case: an implementation that does not return ends the stage, not the check
         uni = ck.rng.choice(['ascii', 'format', 'silent'])
         cull = ck.rng.random() < 0.35
         spec = corpus[i] if i < len(corpus) else U.gen_spec(ck.rng, uni != 'ascii')
@@ -863,8 +925,9 @@ def corr_kv2_nested(ck: Ck) -> None:
         try:
             got, _, _ = dmx.Element.parse(io.BytesIO(data), unicode=(uni == 'silent'))
             back = f'(Some {coq_list(coq_nelem(e) for e in ntree_of(got, cull))})'
+            gback = f'(Some {coq_gdoc(gdoc_of(got))})'
         except Exception:
-            back = 'None'
+            back = gback = 'None'
             ck.count('corr_kv2n_impl_parse_error')
         text2 = reformat_kv2(ck.rng, text)
         try:
@@ -874,12 +937,15 @@ def corr_kv2_nested(ck: Ck) -> None:
             back2 = 'None'
             ck.count('corr_kv2n_impl_reformat_parse_error')
         cases.append((spec, {'unicode': uni, 'cull_uuid': cull},
-                      f'({coq_list(coq_nelem(e) for e in d)}, {_cps(text)}, {back}, {_cps(text2)}, {back2})'))
+                      f'({coq_list(coq_nelem(e) for e in d)}, {_cps(text)}, {back}, {_cps(text2)}, {back2}, '
+                      f'{coq_gdoc(gdoc_of(elems[0]))}, {"true" if cull else "false"}, {gback})'))
+        ck.hist('corr_kv2n_graph_compared', 'tree-and-parsed-graph' if (gback != 'None' and not cull) else 'tree-only')
         ck.count('corr_kv2n_cases')
         depth = text.count('\t\t\t\t')
         ck.hist('corr_kv2n_has_depth3', bool(depth))
         if len(d) > 1 or d[0][3]:
             ck.seen(('k2n', uni, cull, repr(d)))
+    U.disarm()
     bad = []
     for lo in range(0, len(cases), 45):
         vals = ck.coq_eval(IMPORTS_KV2N, [f'bad_idx chk3 0 {coq_list(x[2] for x in cases[lo:lo + 45])}'], name='kv2n', preamble=PRE_KV2N)
@@ -890,7 +956,9 @@ def corr_kv2_nested(ck: Ck) -> None:
         bad += [(lo + v // 10, v % 10) for v in parse_coq_N_list(vals[0])]
     ck.obligation('correspondence:kv2-nested-text', not bad,
                   f'{len(cases)} documents: Fmt/DmxKv2Nested.v rendern_doc vs export_kv2(flat=False, cull_uuid) text (exact, roots '
-                  f'recomputed by the harness), parsen_text of that text vs the block tree of Element.parse: {len(bad)} disagreements')
+                  f'recomputed by the harness), parsen_text of that text vs the block tree of Element.parse; graph level: '
+                  f'Fmt/DmxKv2Graph.v nest_doc of the object graph with the generated root rule renders to the same text, every '
+                  f'element written once, unnest of the parsed tree = the parsed object graph: {len(bad)} disagreements')
     if cases:
         ck.sample({'kv2_nested_case': {'mode': cases[-1][1], 'spec': cases[-1][0]}})
     if bad:
@@ -899,7 +967,10 @@ def corr_kv2_nested(ck: Ck) -> None:
         ck.extra['kv2_nested_disagreement'] = {'spec': cases[i][0], 'mode': cases[i][1],
                                                'kind': {1: 'model text differs from export_kv2', 2: 'model parse differs from parse_kv2',
                                                         3: 'generated document outside ndoc_ok',
-                                                        5: 'model parse of the re-formatted text differs from parse_kv2'}.get(code, code)}
+                                                        5: 'model parse of the re-formatted text differs from parse_kv2',
+                                                        6: 'graph level: nest_doc with the root rule read from the source does not give the exported text',
+                                                        7: 'an element is written more than once',
+                                                        8: 'unnest of the parsed tree is not the object graph Element.parse returned'}.get(code, code)}
 
 
 
@@ -968,6 +1039,7 @@ def corr_value_text(ck: Ck) -> None:
     cases = []
     S = dmx.ValueType.STRING
     for i in range(n):
+        U.arm()        # a limit per case: an implementation that does not return ends the stage, not the check
         k = i % 9
         if k == 7:
             bs = bytes(ck.rng.choice([0, 255, 10, 171, ck.rng.randrange(256)]) for _ in range(ck.rng.choice([0, 1, 2, 5])))
@@ -1042,6 +1114,7 @@ def corr_value_text(ck: Ck) -> None:
         ck.count('corr_value_text_cases')
         ck.hist('corr_value_text_kind', cases[-1][0])
         ck.seen(('vt', cases[-1][0], repr(cases[-1][1])))
+    U.disarm()
     bad = []
     for lo in range(0, len(cases), 600):
         vals = ck.coq_eval(IMPORTS_VT, [f'bad_idx chkv 0 {coq_list(x[2] for x in cases[lo:lo + 600])}'], name='valtext', preamble=PRE_VT)
@@ -1153,11 +1226,12 @@ def corr_kv1(ck: Ck) -> None:
     ASCII lower-casing, which the Coq side uses for [fold])."""
     import warnings
     from srctools import dmx
-    n = ck.budget(150, 3000)
+    n = ck.budget(150, 2000)
     cases = []
     with warnings.catch_warnings():
         warnings.simplefilter('ignore')
         for _ in range(n):
+            U.arm()        # a limit per case: an implementation that does not return ends the stage, not the check
             t = gen_kv(ck.rng, 3, False, nested_roots=True)
             e = dmx.Element.from_kv1(build_kv(t))
             try:
@@ -1169,6 +1243,7 @@ def corr_kv1(ck: Ck) -> None:
             ck.count('corr_kv1_cases')
             if t[0] == 'B' and t[2]:
                 ck.seen(('k1', repr(t)))
+    U.disarm()
     bad = []
     for lo in range(0, len(cases), 300):
         vals = ck.coq_eval(IMPORTS, [f'bad_idx chk1 0 {coq_list(x[1] for x in cases[lo:lo + 300])}'], name='kv1', preamble=PRE_KV1)
@@ -1190,7 +1265,7 @@ def kv1_roundtrip(t, via: str | None = None):
     """to_kv1(from_kv1(t)) == t structurally (real names, values, order); optionally through a file."""
     import warnings
     from srctools import dmx
-    with warnings.catch_warnings():
+    with warnings.catch_warnings(), U.time_limit():
         warnings.simplefilter('ignore')
         e = dmx.Element.from_kv1(build_kv(t))
         if via is not None:
@@ -1241,6 +1316,7 @@ def kv_classify(t) -> str:
 def search_kv1(ck: Ck) -> None:
     n = ck.budget(1500, 20000)
     found = {}
+    kv_hangs = 0
     for i in range(n):
         via = ck.rng.choice([None, None, None, 'kv2', 'v1', 'v5', 'v2'])
         t = gen_kv(ck.rng, 3, True)
@@ -1250,15 +1326,22 @@ def search_kv1(ck: Ck) -> None:
             ck.seen(('kv1', via, repr(t)))
         try:
             p = kv1_roundtrip(t, via)
-        except Exception as e:
+        except (Exception, U.HangTimeout) as e:
             p = f'{type(e).__name__}: {e}'
         if p is None:
+            continue
+        if 'HangTimeout' in p:
+            key = f'kv1-bridge{"-via-file" if via else ""}:does-not-terminate'
+            found.setdefault(key, (t, via, p))
+            kv_hangs += 1
+            if kv_hangs > 3:
+                break
             continue
 
         def pred(x, via=via):
             try:
                 return kv1_roundtrip(x, via) is not None
-            except Exception:
+            except (Exception, U.HangTimeout):
                 return True
         cur, progress = t, True
         while progress:
@@ -1276,7 +1359,12 @@ def search_kv1(ck: Ck) -> None:
 
 
 # ------------------------------------------------------------------------------------------------ search
-def report_failure(ck: Ck, found: dict, spec: dict, mode: dict) -> None:
+def report_failure(ck: Ck, found: dict, spec: dict, mode: dict, problem0: str = '') -> None:
+    if 'HangTimeout' in problem0:      # every shrinking step would wait for the time limit again: report the input as it is
+        key = f'{mode["fmt"]}:does-not-terminate'
+        if key not in found:
+            found[key] = (spec, mode, f'hang: {problem0}', 10 ** 9)
+        return
     small = U.shrink(spec, lambda s: fails(s, mode), 1500)
     problem, stage = U.roundtrip(small, mode)
     if problem is None:
@@ -1294,6 +1382,8 @@ def report_failure(ck: Ck, found: dict, spec: dict, mode: dict) -> None:
             cls = U.classify({'elems': [{'type': 'T', 'name': 'n', 'uuid': _U[0], 'attrs': [['a', a[1], a[2], vals]]}]})
         except Exception:
             pass
+    if stage == 'header':
+        cls = 'format-name-or-version-not-returned'
     if stage == 'compare' and ' key: stored under ' in (problem or ''):
         cls = 'attribute-not-found-under-its-name'       # same records, but the parsed dict is keyed inconsistently
     key = f'{mode_class(small, mode)}:{cls}'
@@ -1306,6 +1396,7 @@ def search_graphs(ck: Ck) -> None:
     n = ck.budget(2500, 40000)
     found: dict = {}
     shrunk: dict = {}
+    hangs = 0
     cases = [(s, m) for _, s, ms in CORPUS for m in ms]
     for i in range(n):
         if i < len(cases):
@@ -1318,6 +1409,9 @@ def search_graphs(ck: Ck) -> None:
                 spec['elems'][-1]['type'] = ck.rng.choice(U.KV2_AMBIGUOUS_TYPES)
             if ck.rng.random() < 0.02:      # a differently-cased spelling of the reserved name attribute
                 spec['elems'][0]['attrs'].insert(0, ['Name', 'STRING', False, ['nm']])
+            if ck.rng.random() < 0.08:      # the format name / version arguments
+                mode = with_format_args(ck.rng, mode)
+                ck.count('graph_roundtrips_with_format_args')
         ck.count('graph_roundtrips')
         ck.hist('mode', mode_tag(mode))
         for k, v in U.features(spec).items():
@@ -1330,10 +1424,14 @@ def search_graphs(ck: Ck) -> None:
             # do not shrink the same class hundreds of times
             quick_key = f'{mode["fmt"]}:{stage}:' + re.sub(r'[0-9]+', '#', problem)[:28]
             ck.count('graph_roundtrip_failures')
+            if 'HangTimeout' in problem:
+                hangs += 1
+                if hangs > 3:              # each costs the whole time limit: three are enough
+                    break
             if shrunk.get(quick_key, 0) >= 2 or sum(shrunk.values()) >= 60:
                 continue
             shrunk[quick_key] = shrunk.get(quick_key, 0) + 1
-            report_failure(ck, found, spec, mode)
+            report_failure(ck, found, spec, mode, problem)
     ck.sample({'graph_case': {'mode': cases[9][1], 'spec': cases[9][0]}})
     for key, (spec, mode, what, _) in found.items():
         ck.violation(key, what, {'kind': 'graph', 'mode': mode, 'spec': spec,
@@ -1402,6 +1500,11 @@ OBLIGATIONS = {
     'kv2_reader_stores_inline_elements_under_casefolded_name': 'keyfn_folded (pk_kv2_inline gen_parse)',
     'new_element_starts_with_the_name_member': 'init_member_ok gen_parse',
     'kv2_record_loop_skips_only_the_name_member': 'kv2_filter_ok gen_kv2_skip',
+    'kv2_roots_are_exported_or_used_twice_or_keyword_typed': 'root_rule_ok gen_rootcfg',
+    'kv2_name_line_written_for_every_element': 'gen_kv2_name_line_always',
+    'kv2_id_line_left_out_only_for_culled_inline_blocks': 'id_written_ok gen_kv2_id_written',
+    'property_binary_premises_hold_today': 'bin_cfg_ok gen_cfg && scalar_cfg_ok gen_scalar && sizes_match_formats gen_scalar gen_cfg && cnt_cfg_ok gen_cnt',
+    'property_kv2_premises_hold_today': 'kv2_tables_ok gen_tables && kv2_opts_ok gen_kv2_opts && vtnames_ok gen_tables gen_fold gen_vtnames && root_rule_ok gen_rootcfg',
     'kv1_element_types_distinct': 'kv1_types_distinct gen_kv1',
     'kv1_keys_written_are_keys_read': 'kv1_keys_agree gen_kv1',
     'kv1_reserved_names_cover_name_and_subkeys': 'kv1_reserved_covers gen_kv1',
@@ -1443,6 +1546,11 @@ EXPLAIN = {
     'instance:kv2_reader_stores_typed_attributes_under_casefolded_name': ['kv2', 'attribute-not-found-under-its-name'],
     'instance:kv2_reader_stores_inline_elements_under_casefolded_name': ['kv2', 'attribute-not-found-under-its-name'],
     'instance:kv2_record_loop_skips_only_the_name_member': ['kv2', ''],
+    'instance:kv2_roots_are_exported_or_used_twice_or_keyword_typed': ['kv2', ''],
+    'instance:kv2_name_line_written_for_every_element': ['kv2', ''],
+    'instance:kv2_id_line_left_out_only_for_culled_inline_blocks': ['kv2', ''],
+    'instance:property_binary_premises_hold_today': ['binary', ''],
+    'instance:property_kv2_premises_hold_today': ['kv2', ''],
     'instance:kv1_reserved_test_reads_the_casefolded_name': ['kv1-bridge', 'reserved-leaf-name'],
     'instance:kv1_duplicate_test_reads_the_casefolded_name': ['kv1-bridge', 'duplicate-leaf-names'],
     'instance:kv1_reserved_names_cover_name_and_subkeys': ['kv1-bridge', 'reserved-leaf-name'],
@@ -1470,6 +1578,32 @@ def runtime_agreement(ck: Ck, side: dict) -> None:
     f_ok = ('name'.casefold() == 'name' and k.get('k_subkeys_w', '').casefold() == k.get('k_subkeys_w')
             and k.get('k_value_w', 'value').casefold() != 'name')
     ck.obligation('casefold-fixes-reserved-names', f_ok, "fold_ok for str.casefold: 'name', 'subkeys' fixed, 'value' not folded to 'name'")
+
+
+def theorems_bundled(ck: Ck, props_file: str) -> None:
+    """ck.theorems(props_file) at a fraction of the cost: one `Print Assumptions` on the conjunction of all theorems of the
+    file instead of one command per theorem (each command walks the environment again: 87 commands take 30-45 s of CPU).
+    The assumptions of the conjunction are the union of the assumptions of its parts, so "Closed under the global
+    context" for the bundle is that answer for every theorem.  Anything else (an axiom somewhere, a failure, unexpected
+    output) falls back to the per-theorem path of the harness, which attributes and reports it."""
+    from harness import common as C
+    txt = (C.ROCQ / props_file).read_text()
+    names = re.findall(r"^\s*(?:Theorem|Lemma|Corollary)\s+([A-Za-z0-9_']+)", txt, re.M)
+    mod = 'SV.' + props_file[:-2].replace('/', '.')
+    ok = False
+    if names:
+        term = names[-1]
+        for n in reversed(names[:-1]):
+            term = f'(conj {n} {term})'
+        body = f'Require Import {mod}.\nDefinition all_theorems_of_the_file := {term}.\nPrint Assumptions all_theorems_of_the_file.\n'
+        rc, out = ck.coq_scratch(body, 'assumptions')
+        ok = rc == 0 and C._split_assumptions(out, 1) == [[]] and out.count('Closed under the global context') == 1
+    if not ok:
+        ck.theorems(props_file)
+        return
+    for n in names:
+        ck.axioms[n] = []
+        ck.obligation(f'theorem:{n}', True, 'Qed; axioms: none (closed under the global context)')
 
 
 def run(ck: Ck) -> None:
@@ -1514,14 +1648,24 @@ def run(ck: Ck) -> None:
     import time as _time
     t0 = [_time.time()]
     stage_s: dict = {}
+    stage_failed: list = []
 
     def stage(name: str, fn, *a) -> None:
-        fn(*a)
+        # a stage that calls into the implementation must not end the check when the implementation raises or hangs where
+        # no handler expects it: the stage is a broken tie, the searches below still run and produce the failing input
+        try:
+            fn(*a)
+        except (Exception, U.HangTimeout) as e:
+            stage_failed.append(name)
+            ck.obligation(f'stage:{name}', False, f'the stage could not be completed: {type(e).__name__}: {str(e)[:300]}')
+            ck.tie_broken.append(f'stage {name} raised {type(e).__name__}')
+        finally:
+            U.disarm()      # the per-case limits of the correspondence loops (U.arm) end with the stage
         t1 = _time.time()
         stage_s[name] = round(t1 - t0[0], 1)
         t0[0] = t1
     if built:
-        stage('print_assumptions', ck.theorems, 'Props/C14.v')
+        stage('print_assumptions', theorems_bundled, ck, 'Props/C14.v')
         stage('instance_obligations', ck.instance_obligations, IMPORTS, OBLIGATIONS)
         stage('runtime', lambda: (runtime_agreement(ck, side), angle_norm_identity(ck)))
         stage('corr_scalar', corr_scalar, ck)
@@ -1539,6 +1683,21 @@ def run(ck: Ck) -> None:
     for ob, (pfx, part) in EXPLAIN.items():
         if any(k.startswith(pfx) and part in k for k in keys):
             ck.explain(ob)
+    # a stage that could not be completed (the implementation raised or did not return inside it) is explained by a
+    # failing input of the format the stage exercises
+    stage_fmt = {'corr_binary': ('binary', 'kv2'), 'corr_scalar': ('binary',), 'corr_kv2': ('kv2',), 'corr_kv2_nested': ('kv2',),
+                 'corr_keyword_predicate': ('kv2',), 'corr_value_text': ('kv2',), 'corr_kv1': ('kv1-bridge',)}
+    for st, pfxs in stage_fmt.items():
+        if st in stage_failed and any(k.startswith(pfxs) for k in keys):
+            ck.explain(f'stage:{st}')
+    # the translator failed closed on a method: explained by a failing input of the format that method belongs to
+    for o in ck.obligations:
+        if o['name'] == 'translate:DmxCodes_gen' and not o['ok']:
+            det = str(o.get('detail', ''))
+            fmts = [pf for words, pf in ((('export_kv2', 'parse_kv2', '_kv2_'), 'kv2'), (('export_binary', 'parse_bin'), 'binary'),
+                                        (('from_kv1', 'to_kv1'), 'kv1-bridge')) if any(w in det for w in words)]
+            if fmts and any(k.startswith(tuple(fmts)) for k in keys):
+                ck.explain('translate:DmxCodes_gen')
 
 
 def replay(data: dict) -> int:
@@ -1554,7 +1713,7 @@ def replay(data: dict) -> int:
             return ('L', x[1], x[2]) if x[0] == 'L' else ('B', x[1], [tup(c) for c in x[2]])
         try:
             p = kv1_roundtrip(tup(r['tree']), r.get('via'))
-        except Exception as e:
+        except (Exception, U.HangTimeout) as e:
             p = f'{type(e).__name__}: {e}'
         print('tree:', r['tree'], 'via:', r.get('via'))
         print('result:', p)
